@@ -5,6 +5,8 @@ fn main() {
     for f in args {
         let text = std::fs::read_to_string(&f).expect("read script");
         let acts = script::parse(&text);
+        let erased = text.lines().any(|l| l.trim() == "mode erased");
+        rsv_harness::ERASED.store(erased, std::sync::atomic::Ordering::Relaxed);
         // a crash of the harness itself on one script must not take the others down
         let r = std::panic::catch_unwind(|| run_script(&acts));
         match r {
